@@ -27,7 +27,7 @@ EXC_NAMES_ = sorted(['InjectedFault'] + [b.__name__ for b in (KeyError, IndexErr
 FORMS = ['convert-callable', 'convert-multi', 'convert-method', 'convert-passrow', 'convert-where', 'convertall', 'convertnumbers', 'fieldmap', 'rowmap', 'rowmapmany']
 REQUIRED = (['form:' + f for f in FORMS] + ['policy:False', 'policy:True', 'policy:inline', 'via:config', 'via:arg',
             'fail-first-row', 'fail-last-row', 'fail-consecutive', 'fail-all-rows', 'exception-surfaced-at-failing-row',
-            'inline-exception-delivered', 'errorvalue-delivered', 'row-dropped', 'generator-rows-kept-before-failure', 'rowmap:lazy-mapper-result', 'rows-longer-than-the-header'] +
+            'inline-exception-delivered', 'errorvalue-delivered', 'row-dropped', 'generator-rows-kept-before-failure', 'rowmap:lazy-mapper-result', 'rows-longer-than-the-header', 'len-of-the-view-taken', 'cells-holding-exception-objects'] +
             ['exc:' + e for e in EXC_NAMES_])
 EXHAUSTIVE = {'quick': True, 'thorough': True}
 
@@ -82,6 +82,11 @@ def cases(ctx):
                                                 # rows longer than the header: the surplus cells are carried over under every policy
                                                 yield {'form': form, 'n': n, 'failrows': list(failrows), 'failfields': list(ff), 'policy': policy,
                                                        'via': via, 'errorvalue': ev, 'pre': pre, 'exc': exc, 'long': True}
+                                            if form in ('convert-callable', 'convert-multi', 'convert-where', 'convertall') and failrows and n <= 3:
+                                                # the failing cells already hold an exception object (what an upstream stage run with
+                                                # failonerror='inline' leaves behind): a cell value like any other
+                                                yield {'form': form, 'n': n, 'failrows': list(failrows), 'failfields': list(ff), 'policy': policy,
+                                                       'via': via, 'errorvalue': ev, 'pre': pre, 'exc': exc, 'exccells': True}
                                             if form == 'rowmap' and failrows and exc != 'StopIteration':
                                                 # the mapper may return any iterable of cells; a lazy one fails while petl builds the row
                                                 # (a StopIteration out of a lazy result just ends that iterable: Python's semantics, not a failure)
@@ -90,11 +95,20 @@ def cases(ctx):
                                                        'lazy': ('generator', 'genexp', 'map')[count[0] % 3]}
 
 
+class StaleError(Exception):
+    """an exception object sitting in a cell of the input table"""
+
+
 def _table(case):
     n = case['n']
     rows = []
     for i in range(n):
         a, b = 'a%d' % i, 'b%d' % i
+        if case.get('exccells') and i in case['failrows']:
+            if 'a' in case['failfields']:
+                a = StaleError((i, 'a'))
+            if 'b' in case['failfields']:
+                b = StaleError((i, 'b'))
         if case['form'] == 'convert-method' and i in case['failrows']:
             a = None     # None.upper() -> AttributeError raised inside petl's methodcaller
         if case['form'] == 'convertnumbers':
@@ -122,6 +136,8 @@ def judge(case, ctx):
     if n and len(failrows) == n:
         ctx.seen('fail-all-rows')
     table = _table(case)
+    if case.get('exccells'):
+        ctx.seen('cells-holding-exception-objects')
     if case.get('long'):
         ctx.seen('rows-longer-than-the-header')
     calls = []
@@ -132,7 +148,10 @@ def judge(case, ctx):
         return i in failrows and f in failfields
 
     def conv(v, *rest):
-        f, i = v[0], int(v[1:])
+        if isinstance(v, StaleError):
+            i, f = v.args[0]
+        else:
+            f, i = v[0], int(v[1:])
         calls.append((i, f))
         if fails(i, f):
             raise Fault((i, f))
@@ -323,6 +342,8 @@ def judge(case, ctx):
                 return False
             ctx.seen('inline-exception-delivered')
             return True
+        if isinstance(e, StaleError):
+            return isinstance(g, StaleError) and g.args == e.args      # an untouched input cell that holds an exception object
         if isinstance(g, BaseException):
             return False
         return util.canon(g) == util.canon(e)
@@ -367,5 +388,18 @@ def judge(case, ctx):
         want = [(i, f) for i in range(n) if converted(i) for f in ('a', 'b')]
         if calls != want:
             out.append({'kind': 'converter-not-called-once-per-cell-in-order', 'expected': want, 'observed': calls})
+    # len(view) is one more pass over the view, under the same policy: the number of rows the pass delivers, or the exception
+    if not out and not stopiter:
+        try:
+            ln = len(view)
+        except Exception as e:  # noqa: the exception is the observation
+            ln = e
+        ctx.seen('len-of-the-view-taken')
+        if exp_raise_after is None:
+            if isinstance(ln, BaseException) or ln != len(exp_rows) + 1:
+                out.append({'kind': 'len-of-view-differs-from-rows-delivered', 'policy': policy, 'expected': len(exp_rows) + 1, 'observed': repr(ln)})
+        elif not isinstance(ln, ok_types):
+            out.append({'kind': 'len-of-view-did-not-surface-the-exception', 'policy': policy, 'observed': repr(ln)})
+        ln = None
     del raised
     return out
